@@ -68,11 +68,14 @@ def _spec_hash(module="MC_Doc"):
     return h
 
 
-def _cached_tlc(tag, cfg, module="MC_Doc", **kw):
-    """TLC's enumeration does not depend on the repository: cache exports by spec+cfg hash."""
+def _cached_tlc(tag, cfg, module="MC_Doc", keep=None, **kw):
+    """TLC's enumeration does not depend on the repository: cache exports by spec+cfg hash.
+    Lines are streamed to the cache file; `keep(obj)` (optional) decides which exported states
+    are retained for replay (TLC still evaluates its invariants on every state)."""
     h = _spec_hash(module)
     h.update(cfg.encode())
     h.update(json.dumps(kw, sort_keys=True).encode())
+    h.update((keep.__name__ if keep else "").encode())
     key = h.hexdigest()[:20]
     path = os.path.join(CACHE, f"{tag}-{key}.jsonl.gz")
     if os.path.exists(path) and not os.environ.get("VERIF_NOCACHE"):
@@ -81,24 +84,51 @@ def _cached_tlc(tag, cfg, module="MC_Doc", **kw):
             lines = [json.loads(l) for l in fh]
         meta["cached"] = True
         return lines, meta
-    res = run_tlc(module, cfg, coverage=False, **kw)
-    if not res.ok:
-        raise MachineryError(f"TLC failed on {module}:\n" + res.raw_tail[-3000:])
-    meta = dict(states=res.states, distinct=res.distinct, depth=res.depth, wall=res.wall,
-                cached=False)
     os.makedirs(CACHE, exist_ok=True)
     tmp = path + ".tmp%d" % os.getpid()
-    with gzip.open(tmp, "wt") as fh:
-        fh.write(json.dumps(meta) + "\n")
-        for l in res.lines:
-            fh.write(json.dumps(l) + "\n")
+    kept = []
+    counts = {"exported": 0}
+    with gzip.open(tmp + ".body", "wt") as fh:
+        def sink(obj):
+            counts["exported"] += 1
+            if keep is None or keep(obj):
+                kept.append(obj)
+                fh.write(json.dumps(obj) + "\n")
+        res = run_tlc(module, cfg, coverage=False, line_sink=sink, **kw)
+    if not res.ok:
+        os.unlink(tmp + ".body")
+        raise MachineryError(f"TLC failed on {module}:\n" + res.raw_tail[-3000:])
+    meta = dict(states=res.states, distinct=res.distinct, depth=res.depth, wall=res.wall,
+                exported=counts["exported"], kept=len(kept), cached=False)
+    with gzip.open(tmp, "wt") as out, gzip.open(tmp + ".body", "rt") as body:
+        out.write(json.dumps(meta) + "\n")
+        for l in body:
+            out.write(l)
+    os.unlink(tmp + ".body")
     os.replace(tmp, path)
-    return res.lines, meta
+    return kept, meta
+
+
+def keep_seed_sampled(obj):
+    if any(obj.get(k) for k in ("m01", "m04", "m05", "m05w", "m05np", "m10", "m20")):
+        return True
+    return int(hashlib.sha1(json.dumps(obj["doc"], sort_keys=True).encode()).hexdigest()[:8], 16) % 4 == 0
+
+
+def keep_flagged_or_sampled(obj):
+    """thorough tier: every state the MODEL flags, every state within the quick bound, and a
+    deterministic 1-in-8 sample of the rest are replayed (TLC has checked all of them)."""
+    if obj.get("size", 0) <= 2:
+        return True
+    if any(obj.get(k) for k in ("m01", "m04", "m05", "m05w", "m05np", "m10", "m20")):
+        return True
+    return int(hashlib.sha1(json.dumps(obj["doc"], sort_keys=True).encode()).hexdigest()[:8], 16) % 8 == 0
 
 
 def stage1(tier, uns=False):
     t = TIERS[tier]
-    states, meta = _cached_tlc("doc-bfs", _cfg(t["bfs"], uns))
+    states, meta = _cached_tlc("doc-bfs", _cfg(t["bfs"], uns),
+                               keep=keep_flagged_or_sampled if tier == "thorough" else None)
     info = dict(bfs=dict(consts=t["bfs"], **meta))
     seen = set()
     out = []
@@ -110,7 +140,8 @@ def stage1(tier, uns=False):
             out.append(s)
     if t.get("seed"):
         seed_states, smeta = _cached_tlc(
-            "doc-seed", _cfg(t["seed"], uns, "SeedSpec", t["seed_levels"]))
+            "doc-seed", _cfg(t["seed"], uns, "SeedSpec", t["seed_levels"]),
+            keep=keep_seed_sampled if tier == "thorough" else None)
         n0 = len(out)
         for s in seed_states:
             key = json.dumps(s["doc"], sort_keys=True)
@@ -123,7 +154,8 @@ def stage1(tier, uns=False):
     if t.get("sim"):
         sim_states, smeta = _cached_tlc(
             "doc-sim", _cfg(t["sim"], uns, "SimSpec"), simulate=f"num={t['sim_num']}",
-            depth=t["sim_depth"], seed=SEED + 1, workers=t["sim_workers"])
+            depth=t["sim_depth"], seed=SEED + 1, workers=t["sim_workers"],
+            keep=keep_seed_sampled if tier == "thorough" else None)
         n0 = len(out)
         for s in sim_states:
             key = json.dumps(s["doc"], sort_keys=True)
